@@ -1,7 +1,6 @@
 //! Driving the real CRAM writer and reader: configurations, encoder alphabet, write / read helpers
 //! that turn errors and panics into classified failures.
 
-use std::io::Write as _;
 
 use noodles_cram::{
     self as cram,
